@@ -13,6 +13,9 @@ READER_ONLY = {}
 
 
 def run(ctx):
+    from ..persist import rule_P17
+    k17 = rule_P17(ctx)      # no value is sorted / thinned between attribute and file
+    ctx.require(k17 >= 60, 'P17 saw only %d stored values (floor 60)' % k17)
     from ..persist import rule_P12k
     rule_P12k(ctx)      # ordered members are never rebuilt from the (alphabetical) group names
     prog = ctx.program
